@@ -775,14 +775,16 @@ def search(prop, cfg, tier, seed, families, post_restart_only=False, time_cap=No
     return rc
 
 
-def search_phases(prop, phases, tier, seed, families, post_restart_only=False, rule="", assumptions=(), gate=True):
+def search_phases(prop, phases, tier, seed, families, post_restart_only=False, rule="", assumptions=(), gate=True, extra_cov=None,
+                  pre_violations=None):
     """phases: [(label, cfg, time_cap)] explored one after the other with one verdict and one evidence file"""
     t0 = time.time()
     verdict = None
     covs = []
     for label, cfg, cap in phases:
         cov, verdict = search(prop, cfg, tier, seed, families, post_restart_only=post_restart_only, time_cap=cap, rule=rule,
-                              assumptions=assumptions, gate=gate, verdict=verdict, defer=True, label=label)
+                              assumptions=assumptions, gate=gate, verdict=verdict, defer=True, label=label,
+                              extra_cov=extra_cov if not covs else None, pre_violations=pre_violations if not covs else None)
         cov["phase"] = label
         covs.append(cov)
     rc = verdict.finish()
